@@ -33,7 +33,8 @@ CONFIG = dict(
 )
 
 QUERIES = ["unparse", "ast_dump", "check_safety", "trace", "properties", "unsafe_imports",
-           "non_standard_imports", "str_results", "to_dict", "dumps"]
+           "non_standard_imports", "str_results", "to_dict", "dumps", "interpret_renumbered",
+           "trace_renumbered", "unused_variables"]
 
 
 def _safe(fn):
@@ -78,6 +79,17 @@ def answer(f, analysis, tracing, p, q):
         return _safe(lambda: repr(analysis.check_safety(p).to_dict()))
     if q == "dumps":
         return _safe(lambda: p.dumps())
+    if q == "interpret_renumbered":     # exactly what the CLI does for the i-th pickle of a stack
+        return _safe(lambda: ast.unparse(f.Interpreter(p, first_variable_id=7, result_variable="result3").to_ast()))
+    if q == "trace_renumbered":
+        def go():
+            buf = io.StringIO()
+            with contextlib.redirect_stdout(buf):
+                mod = tracing.Trace(f.Interpreter(p, first_variable_id=2, result_variable="result1")).run()
+            return (buf.getvalue(), ast.unparse(mod))
+        return _safe(go)
+    if q == "unused_variables":
+        return _safe(lambda: tuple(sorted(f.Interpreter(p).unused_variables())))
     raise ValueError(q)
 
 
@@ -166,7 +178,7 @@ def run_shard(ctx):
             # bounded-exhaustive ordered selections on a deterministic subset of the corpus,
             # random sequences with repetition on everything
             if int(ch[:2], 16) % (4 if ctx.tier == "quick" else 2) == 0:
-                qs = [q for q in QUERIES if q != "dumps"]
+                qs = [q for q in QUERIES if q not in ("dumps", "ast_dump", "str_results")]
                 seqs += [list(s) for s in itertools.permutations(qs, maxlen)]
             for _ in range(4):
                 seqs.append([rng.choice(QUERIES) for _ in range(rng.randint(3, 8))])
